@@ -228,6 +228,10 @@ def _branch_and_price(
         solution = _build_solution(x_vals, columns, eps)
         return Result(solution, lp_obj, 0, total_cg_iters, Status.OPTIMAL)
 
+    # The root LP is priced over all columns, so its rounded-up value bounds every integer plan from below.
+    # Node LPs below are restricted to the columns generated so far and prove nothing about optimality.
+    root_bound = ceil(lp_obj - eps)
+
     # Initialize B&B
     best_solution: dict[tuple[int, ...], int] | None = None
     best_obj = float("inf")
@@ -277,9 +281,8 @@ def _branch_and_price(
                 best_solution = _build_solution(x_vals, columns, eps)
                 best_obj = obj
 
-                # Check gap
-                gap = (best_obj - lp_obj) / max(abs(best_obj), 1e-10)
-                if gap < gap_tol:
+                # Proven optimal once the incumbent meets the root bound
+                if best_obj <= root_bound + gap_tol:
                     return Result(best_solution, best_obj, nodes_explored, total_cg_iters, Status.OPTIMAL)
             continue
 
@@ -301,7 +304,7 @@ def _branch_and_price(
     if best_solution is None:
         return Result(None, float("inf"), nodes_explored, total_cg_iters, Status.INFEASIBLE)
 
-    status = Status.OPTIMAL if not tree else Status.FEASIBLE
+    status = Status.OPTIMAL if best_obj <= root_bound + gap_tol else Status.FEASIBLE
     return Result(best_solution, best_obj, nodes_explored, total_cg_iters, status)
 
 
